@@ -166,6 +166,19 @@ func propagates(v ssa.Value) (bool, string) {
 // handledByBranch: cmp is `v != nil` / `v == nil`; reports whether the region of the CFG that is
 // reached only when v is non-nil constructs or returns an error (qerrors.New/Propagate, fmt.Errorf,
 // errors.New, a return with a non-nil error slot, or a call of a method named withErr).
+var inRetry bool
+
+func sourceCall(v ssa.Value) *ssa.Call {
+	switch t := v.(type) {
+	case *ssa.Call:
+		return t
+	case *ssa.Extract:
+		c, _ := t.Tuple.(*ssa.Call)
+		return c
+	}
+	return nil
+}
+
 func handledByBranch(cmp *ssa.BinOp, v ssa.Value) bool {
 	if cmp.Op != token.NEQ && cmp.Op != token.EQL {
 		return false
@@ -187,6 +200,33 @@ func handledByBranch(cmp *ssa.BinOp, v ssa.Value) bool {
 			nonNil = 1
 		}
 		blk := iff.Block()
+		// the failed attempt is retried on a fallback path: the same operation is called again on some path
+		// from the non-nil edge, and that call's own error reaches a sink
+		if src := sourceCall(v); src != nil && !inRetry {
+			srcBlk := src.Block()
+			// stay within the same activation of the enclosing loop body: do not go back to a block that
+			// dominates the failed call (that would be the next iteration / another filter)
+			for _, rb := range reachableAvoiding(blk.Succs[nonNil], func(x *ssa.BasicBlock) bool { return x != srcBlk && x.Dominates(srcBlk) }) {
+				for _, in := range rb.Instrs {
+					rc, ok := in.(*ssa.Call)
+					if !ok || rc == src || calleeObj(rc) == nil || calleeObj(rc) != calleeObj(src) {
+						continue
+					}
+					inRetry = true
+					vals, _ := errValuesOfCall(rc)
+					okRetry := false
+					for _, ev := range vals {
+						if ok, _ := propagates(ev); ok {
+							okRetry = true
+						}
+					}
+					inRetry = false
+					if okRetry {
+						return true
+					}
+				}
+			}
+		}
 		for _, b := range blk.Parent().Blocks {
 			if !edgeDominates(blk, nonNil, b) {
 				continue
@@ -209,7 +249,7 @@ func handledByBranch(cmp *ssa.BinOp, v ssa.Value) bool {
 					case o.Pkg().Path() == rel("qerrors") && (o.Name() == "New" || o.Name() == "Propagate"),
 						o.Pkg().Path() == "fmt" && o.Name() == "Errorf",
 						o.Pkg().Path() == "errors" && o.Name() == "New",
-						o.Name() == "withErr":
+						curProg != nil && curProg.isErrSetter(o):
 						return true
 					}
 				}
